@@ -19,11 +19,14 @@ STAGE = {
     'ifa': 'foreach v%d { if { $v%d == "a" } then { out A } else { out $v%d } }',
     'sw': 'foreach v%d { switch $v%d { case "b" { out B }; default { out $v%d } } }',
     'var': 'foreach v%d { w%d = "v$(v%d)"; w%d = "$(w%d)v"; out $w%d }',
+    'tryf': 'foreach v%d { try { fl; out never }; out "t$v%d" }',
+    'trys': 'foreach v%d { try { out "s$v%d" || out never } }',
+    'tpf': 'foreach v%d { trypipe { fl | out never; out never2 }; out "p$v%d" }',
 }
 
 
 def render(case, cid):
-    pre = 'function fnst%d { -> foreach fv { out "f$fv" } }\n' % cid
+    pre = 'function fnst%d { -> foreach fv { out "f$fv" } }\nfunction fl { return 1 }\n' % cid
     parts = []
     n = 0
     for p in case['prog']:
@@ -53,7 +56,7 @@ def run(ck, replay=None):
                       'release-once, and bound to the code: the chain programs with true/false commands run with the scheduler / process gates logged in one '
                       'total order and TLC validates every log against LifecycleTrace.tla (gates = actions, the rendezvous and the scheduler bookkeeping silent).  '
                       'non-trivial = at least two concurrent stages or a conditional operator; distinct = different programs.' % K)
-    ck.assumptions += ['vocabulary: a (mkarray), foreach, out, err, mtac, cast, if/else, switch, variables and string expressions, functions, ; newline && || try trypipe - no bg, timers or randomness',
+    ck.assumptions += ['vocabulary: a (mkarray), foreach, out, err, mtac, cast, if/else, switch, variables and string expressions, functions, try/trypipe blocks inside a stage body (abandoned after a failure, skipped || alternative), ; newline && || try trypipe - no bg, timers or randomness',
                        'at most one stage of a pipeline writes to the shared stderr (otherwise interleaving there is by design)',
                        'concurrent stages use distinct variable names (blocks share the enclosing function\'s variables, C11)',
                        'a run that does not return within 20 s is a hang']
